@@ -76,6 +76,38 @@ PY2_ONLY_NAMES = {'unicode', 'basestring', 'xrange', 'raw_input', 'unichr',
                   'reduce', 'long', 'cmp', 'execfile', 'file'}
 
 
+def class_ancestors(repo, known):
+    """'<rel>::<Class>' -> ancestors in depth-first, left-to-right order of
+    the bases (names as written for classes outside the package).  With
+    `known` (the reviewed table) private helper classes that the table does
+    not know (`_Base` introduced by a refactoring) are looked through."""
+    classes = {}
+    for m in repo.all_mods():
+        for c in m.tree.body:
+            if isinstance(c, ast.ClassDef):
+                classes.setdefault(c.name, (m.rel, c))
+    known_names = None if known is None else set(
+        k.split('::')[1] for k in known)
+
+    def walk(c, out, seen):
+        for b in c.bases:
+            name = ast.unparse(b)
+            tgt = classes.get(name)
+            hidden = known_names is not None and name.startswith('_') \
+                and name not in known_names and tgt is not None
+            if not hidden and name not in out:
+                out.append(name)
+            if tgt is not None and name not in seen:
+                seen.add(name)
+                walk(tgt[1], out, seen)
+    res = {}
+    for name, (rel, c) in classes.items():
+        out = []
+        walk(c, out, set())
+        res['%s::%s' % (rel, name)] = out
+    return res
+
+
 def static_binding(chk, repo, rule='R00.1'):
     """Precondition of every rule: the functions that were analysed are the
     ones that run.  A method is what the class body binds last under its
@@ -123,6 +155,63 @@ def static_binding(chk, repo, rule='R00.1'):
                     'function is rebound (the analysed functions are the '
                     'ones that run)', found='; '.join(bad))
     chk.need(rule, n, 20, 'modules')
+    # how a reviewed function is bound (classmethod / staticmethod /
+    # property / plain) is part of what was reviewed
+    import json
+    import os
+    from . import reviewed
+    from .source import qual
+    path = os.path.join(os.path.dirname(reviewed.STORE), 'decorators.json')
+    if not os.path.exists(path):
+        from .source import AnalysisError
+        raise AnalysisError('reviewed/decorators.json missing')
+    want = json.load(open(path))
+    store = reviewed.store()
+    nfun = 0
+    for m in repo.all_mods():
+        seen = {}
+        for node in ast.walk(m.tree):
+            if isinstance(node, ast.FunctionDef):
+                seen[qual(node)] = node
+        for q, node in sorted(seen.items()):
+            k = '%s::%s' % (m.rel, q)
+            if k not in store:
+                continue
+            nfun += 1
+            have = [ast.unparse(d) for d in node.decorator_list]
+            if have != want.get(k, []):
+                chk.ob(rule, False, m.rel, node, key='decorators:' + q,
+                       what='%s is bound as reviewed (decorators)' % q,
+                       found=str(have), required=str(want.get(k, [])))
+    chk.ob(rule, True, None, None, key='decorators-checked',
+           qualname='<package>',
+           what='decorator lists of %d reviewed functions compared with '
+                'reviewed/decorators.json' % nfun)
+    chk.need(rule, nfun, 300, 'reviewed functions present')
+    # class hierarchy (which inherited methods an object has)
+    cpath = os.path.join(os.path.dirname(reviewed.STORE), 'classes.json')
+    if not os.path.exists(cpath):
+        from .source import AnalysisError
+        raise AnalysisError('reviewed/classes.json missing')
+    cwant = json.load(open(cpath))
+    chave = class_ancestors(repo, known=cwant)
+    ncls = 0
+    for k, anc in sorted(cwant.items()):
+        if k not in chave:
+            continue        # a vanished class is an anchor error elsewhere
+        ncls += 1
+        if chave[k] != anc:
+            rel, cname = k.split('::')
+            chk.ob(rule, False, rel, repo.cls(rel, cname),
+                   key='ancestors:' + cname, qualname=cname,
+                   what='%s has the reviewed ancestors, in the reviewed '
+                        'order' % cname, found=str(chave[k]),
+                   required=str(anc))
+    chk.ob(rule, True, None, None, key='ancestors-checked',
+           qualname='<package>',
+           what='ancestor lists of %d classes compared with '
+                'reviewed/classes.json' % ncls)
+    chk.need(rule, ncls, 80, 'reviewed classes present')
 
 
 def py2_api(chk, repo, rule='SWEEP.py2api'):
